@@ -79,3 +79,19 @@ Proof.
     + apply (ConcWake.p_empty 61 _ 0); [reflexivity|]. right. simpl. eauto.
   - simpl. repeat split; auto. exists 0, 0, ConcWake.WLink. split; [reflexivity|auto].
 Qed.
+
+(** OrderReach: a FuturesOrderedBounded history (word size 8 bits: at most 126 futures) whose
+    every prefix is small, so the order invariant holds at its end; counters seeded at 250 so
+    that the positions wrap *)
+From FB Require Import Ordered OrderProofs FobOrder OrderReach.
+Definition cp_fob : cparams := {| p_cap := 3; p_new := false; p_iter := false; p_seed := Some 250%Z; p_hlo := 0; p_hhi := None |}.
+Definition ops_fob : list op :=
+  [OBuild TFOB cp_fob [] []; OPush 1%N [([], RP); ([], RR)]; OPushF 2%N [([], RR)]; OPush 3%N [([], RR)]; OPoll 0 no_inj; OPoll 0 no_inj].
+
+Example fob_history_is_small : forall n, small P0 (st_coll (reach P0 (firstn n ops_fob))).
+Proof.
+  intros n. do 7 (destruct n as [|n]; [vm_compute; reflexivity|]). vm_compute. reflexivity.
+Qed.
+
+Example fob_history_order : ord_inv P0 (st_coll (reach P0 ops_fob)).
+Proof. apply (@reachable_order P0 P0_ok). exact fob_history_is_small. Qed.
